@@ -159,7 +159,8 @@ def check_molecule(m, zs, pos, rng, tmp, with_bonds):
     if with_bonds:
         m.guess_bonds()
     # XYZ
-    p = os.path.join(tmp, "m.xyz")
+    stem = rng.choice(["m", "M", "water.opt", "conf.1", "a b", "x.d.e"])       # the format is chosen by the LAST suffix
+    p = os.path.join(tmp, stem + rng.choice([".xyz", ".XYZ", ".xyz"]))
     m.save(p)
     m2 = Molecule.load(p)
     if [int(z) for z in m2.atomic_numbers] != zs:
@@ -176,7 +177,7 @@ def check_molecule(m, zs, pos, rng, tmp, with_bonds):
         return "xyz: reading is not insensitive to letter case / runs of blanks"
     # SDF (coordinates within the 10.4f range only)
     if np.abs(pos).max() < 9999.99994:
-        p = os.path.join(tmp, "m.sdf")
+        p = os.path.join(tmp, stem + rng.choice([".sdf", ".SDF", ".sdf"]))
         m.save(p)
         text = open(p).read()
         L = text.splitlines()
